@@ -65,10 +65,34 @@ def _fullmatch(p, s, secs=5):
         signal.signal(signal.SIGALRM, old)
 
 
+def _check_text(case, ctx):
+    """replay of a finding of the atheris campaign: raw pattern text, seeded real RNG"""
+    from d42.generation import Random, RegexGenerator
+    from .. import fuzz_c09
+    p = case["text"]
+    parsed = fuzz_c09.sre.parse(p)
+    try:
+        kind = fuzz_c09.classify(parsed)
+    except fuzz_c09.Skip:
+        return
+    with rng.seeded(case["seed"]):
+        try:
+            s = RegexGenerator(Random(), max_repeat=case["max_repeat"]).generate(p)
+        except Exception as e:  # noqa
+            if kind == "unsupported":
+                return
+            raise Violation("supported-raises", f"generate({p!r}) raised {e!r}")
+    if re.fullmatch(p, s) is None:
+        raise Violation("nonmatch" if kind == "supported" else "unsupported-nonmatch",
+                        f"generate({p!r}, max_repeat={case['max_repeat']}) = {s!r} does not fully match")
+
+
 def check(case, ctx):
     from d42 import fake, schema, validate
     from d42.generation import Random, RegexGenerator
 
+    if "text" in case:
+        return _check_text(case, ctx)
     pat = case["pattern"]
     p = regexgen.render(pat)
     try:
@@ -132,6 +156,57 @@ def check(case, ctx):
         ctx.label("anchored")
     if regexgen.nesting(pat["body"]) >= 2:
         ctx.mark_nontrivial(case, sample_class=tuple(sorted(feats))[:3])
+
+
+def extra_engine(tier, seed, ctx):
+    """Thorough tier: coverage-guided atheris campaigns over raw pattern text (empty corpus, and a
+    corpus of the patterns found in the repository's own regex-generator tests)."""
+    if tier != "thorough":
+        return None
+    import json
+    import os
+    import shutil
+    import subprocess
+    import sys
+    import tempfile
+    try:
+        import atheris  # noqa: F401
+    except ImportError:
+        return {"engine": "atheris", "skipped": "atheris is not importable (setup.sh could not install it)"}
+    repo = os.environ.get("D42_VERIF_REPO", "/repo")
+    seeds = []
+    try:
+        src = open(os.path.join(repo, "tests", "generation", "test_regex_generator.py"), encoding="utf-8").read()
+        seeds = sorted(set(re.findall(r'generate\(r"([^"]+)"\)', src)))
+    except OSError:
+        pass
+    out = {"engine": "atheris", "campaigns": [], "failures": []}
+    for name, corpus_seeds in (("empty-corpus", []), ("test-suite-corpus", seeds)):
+        work = tempfile.mkdtemp(prefix="c09fuzz-")
+        try:
+            corpus = os.path.join(work, "corpus")
+            os.makedirs(corpus)
+            for i, p in enumerate(corpus_seeds):
+                with open(os.path.join(corpus, f"seed{i}"), "wb") as fh:
+                    fh.write(b"\x01" + p.encode("utf-8") + b"\x03\x07")
+            res = os.path.join(work, "result.json")
+            cmd = [sys.executable, "-W", "ignore", "-m", "pbt.fuzz_c09", res, corpus,
+                   "-runs=400000", f"-seed={seed + 1}", "-max_total_time=150", "-max_len=96",
+                   "-print_final_stats=0", "-verbosity=0"]
+            p = subprocess.run(cmd, capture_output=True, text=True, timeout=400)
+            data = json.load(open(res)) if os.path.exists(res) else {"stats": {}, "violation": None}
+            camp = {"name": name, "seed_inputs": len(corpus_seeds), "exit": p.returncode, **data.get("stats", {})}
+            out["campaigns"].append(camp)
+            v = data.get("violation")
+            if v:
+                case = {"text": v["pattern"], "max_repeat": v["max_repeat"], "seed": v["seed"]}
+                out["failures"].append((case, v["key"], v["detail"]))
+            elif p.returncode not in (0,):
+                camp["note"] = (p.stderr or "")[-300:]
+        finally:
+            shutil.rmtree(work, ignore_errors=True)
+    ctx.evaluations += sum(c.get("execs", 0) for c in out["campaigns"])
+    return out
 
 
 def require(ctx, tier):
